@@ -1000,10 +1000,73 @@ func c15RunCase(t *testing.T, m *c15Mount, c *c15Case, out *vh.Out) {
 
 // ---------------------------------------------------------------- the test
 
+// c15Cel: CEL roles (cel/issue/<role>): the role's program computes NotAfter = now + request.ttl itself; the issuer's
+// leaf_not_after_behavior must be applied to it all the same. Op line: cel <behaviour> <ttl s> <issuer ttl s> =>
+// refused | ok na=<seconds from now>
+func c15Cel(t *testing.T, out *vh.Out) {
+	for _, beh := range []string{"err", "truncate", "permit"} {
+		for _, ttl := range []int64{3600, 360000} {
+			const issuerTTL = 7200
+			for try := 0; try < 5; try++ {
+				b, s := CreateBackendWithStorage(t)
+				do := func(op logical.Operation, path string, data map[string]any) (*logical.Response, error) {
+					return b.HandleRequest(context.Background(), &logical.Request{Storage: s, Operation: op, Path: path, Data: data})
+				}
+				resp, err := do(logical.UpdateOperation, "root/generate/internal", map[string]any{"common_name": "root.com", "ttl": "7200s", "key_type": "ec"})
+				if err != nil || resp == nil || resp.IsError() {
+					t.Fatalf("cel root: %v %v", err, resp)
+				}
+				ca := parseCert(t, resp.Data["certificate"].(string))
+				if resp, err = do(logical.UpdateOperation, "issuer/default", map[string]any{"leaf_not_after_behavior": beh}); err != nil || (resp != nil && resp.IsError()) {
+					t.Fatalf("cel issuer: %v %v", err, resp)
+				}
+				resp, err = do(logical.UpdateOperation, "cel/roles/r", map[string]any{
+					"cel_program": map[string]any{
+						"variables": []map[string]any{
+							{"name": "cert", "expression": `CertTemplate{
+								Subject: PKIX.Name{ CommonName: request.common_name },
+								NotBefore: now,
+								NotAfter: now + duration(request.ttl),
+								DNSNames: [request.common_name],
+							}`},
+							{"name": "output", "expression": `ValidationOutput{ template: cert, issuer_ref: "default", key_type: "ec", key_bits: uint(256) }`},
+						},
+						"expression": "output",
+					},
+				})
+				if err != nil || (resp != nil && resp.IsError()) {
+					t.Fatalf("cel role: %v %v", err, resp)
+				}
+				t0 := time.Now()
+				resp, err = do(logical.UpdateOperation, "cel/issue/r", map[string]any{"common_name": "example.com", "ttl": strconv.FormatInt(ttl, 10)+"s"})
+				res := "refused"
+				if err == nil && resp != nil && !resp.IsError() {
+					leaf := parseCert(t, resp.Data["certificate"].(string))
+					if leaf.NotAfter.Equal(ca.NotAfter) {
+						res = "ok na=" + strconv.Itoa(issuerTTL) // truncated to the issuer's NotAfter
+					} else {
+						d := leaf.NotAfter.Unix() - t0.Unix()
+						if d != ttl && d != ttl+1 {
+							continue // a second boundary between our clock reading and the program's `now`
+						}
+						res = "ok na=" + strconv.FormatInt(ttl, 10)
+					}
+					if beh != "permit" && leaf.NotAfter.After(ca.NotAfter) {
+						res += "!VIOL:cel/issue issued a leaf that outlives its issuer although the issuer's leaf_not_after_behavior is " + beh + "#cel-leaf-outlives-issuer"
+					}
+				}
+				out.Op(res, "cel", beh, vh.I(ttl), vh.I(issuerTTL))
+				break
+			}
+		}
+	}
+}
+
 func TestVerifC15(t *testing.T) {
 	out := vh.Open()
 	defer out.Close()
 	rng := vh.NewRand(vh.Seed())
+	c15Cel(t, out)
 
 	// 1. helper functions
 	nHelper := 4000
